@@ -420,3 +420,69 @@ func runC26z(c *Ctx) {
 		c.Check(incremented && VField(fLast)(st.Val), fmt.Sprintf("overlord/auth.NewUser#id-from-counter#%d", i+1), st.Pos(), "ID = ++LastID", "the ID of a new user is not taken from the incremented LastID counter: an ID can be reused after a user was removed, and with it the removed user's macaroon becomes valid for the new user")
 	}
 }
+
+// runC17y: the rule behind finding F18.
+func runC17y(c *Ctx) {
+	P := c.P
+	pkg := "bootloader"
+	c.Rule("C17-R9", "S", "piboot: every boot variable that the generated config.txt / tryboot.txt depends on (read by loadAndApplyConfig) makes SetBootVars regenerate it when it changes", 3)
+	apply := P.Func(pkg + ".(*piboot).loadAndApplyConfig")
+	setv := P.Func(pkg + ".(*piboot).SetBootVars")
+	envGet := P.FuncObj("bootloader/ubootenv.(*Env).Get")
+	// the run-mode branch (C17 is about kernel updates of a running system; the recovery branch reads
+	// snapd_recovery_system, which is set together with the mode)
+	var runBlk *ssa.BasicBlock
+	for _, b := range apply.Blocks {
+		if len(b.Instrs) == 0 {
+			continue
+		}
+		ifi, ok := b.Instrs[len(b.Instrs)-1].(*ssa.If)
+		if !ok {
+			continue
+		}
+		cd := Decompose(ifi.Cond)
+		if cd.Bin != nil && cd.Bin.Op == token.EQL {
+			if k, ok := ConstString(cd.Bin.Y); ok && k == "run" {
+				runBlk = b.Succs[0]
+				if cd.Neg {
+					runBlk = b.Succs[1]
+				}
+			}
+		}
+	}
+	if runBlk == nil {
+		c.Undecided(pkg+".(*piboot).loadAndApplyConfig#run-mode-branch", apply.Pos(), "the run-mode branch was not found")
+		return
+	}
+	read := map[string]bool{"snapd_recovery_mode": true}
+	for _, cc := range CallSites(apply, envGet) {
+		if k, ok := ConstString(cc.Common().Args[1]); ok && (cc.Block() == runBlk || runBlk.Dominates(cc.Block())) {
+			read[k] = true
+		}
+	}
+	// constants the range key is compared with in SetBootVars
+	trig := map[string]bool{}
+	for _, b := range setv.Blocks {
+		for _, in := range b.Instrs {
+			bo, ok := in.(*ssa.BinOp)
+			if !ok || bo.Op != token.EQL {
+				continue
+			}
+			if k, ok := ConstString(bo.Y); ok {
+				trig[k] = true
+			}
+			if k, ok := ConstString(bo.X); ok {
+				trig[k] = true
+			}
+		}
+	}
+	if len(read) == 0 {
+		c.Undecided(pkg+".(*piboot).loadAndApplyConfig#variables", apply.Pos(), "no env.Get(<constant>) found")
+		return
+	}
+	c.touch(apply)
+	c.touch(setv)
+	for _, k := range sortedKeys(read) {
+		c.Check(trig[k], pkg+".(*piboot).SetBootVars#reconfigures-on:"+k, setv.Pos(), "a change of "+k+" is looked at", "the piboot configuration is generated from "+k+" but SetBootVars does not look at changes of it: config.txt / tryboot.txt can keep pointing at a kernel other than the one the boot variables name")
+	}
+}
